@@ -25,30 +25,52 @@ REL = 'depccg/cat.py'
 
 
 def regex_class(pattern):
+    """-> (delimiter characters, style, swallowed) for the tokeniser regex.
+    style 'split': one (capturing) character class, used with sub + split;
+    style 'findall': alternation of a single-character delimiter class and a run of a negated class; `swallowed` are the
+    delimiters the negated class fails to exclude (they would be glued onto atoms)."""
     try:
         import re._parser as sp
     except ImportError:      # pragma: no cover
         import sre_parse as sp
     p = sp.parse(pattern)
-    chars = set()
 
-    def walk(items):
-        for op, av in items:
-            name = str(op)
-            if name == 'SUBPATTERN':
-                walk(av[3])
-            elif name == 'IN':
-                for o2, a2 in av:
-                    if str(o2) == 'LITERAL':
-                        chars.add(chr(a2))
-                    else:
-                        raise AnalysisError('cat_split character class contains %s' % o2)
-            elif name == 'LITERAL':
-                chars.add(chr(av))
+    def in_chars(av):
+        chars, negate, cats = set(), False, set()
+        for o2, a2 in av:
+            n2 = str(o2)
+            if n2 == 'LITERAL':
+                chars.add(chr(a2))
+            elif n2 == 'NEGATE':
+                negate = True
+            elif n2 == 'CATEGORY':
+                cats.add(str(a2))
             else:
-                raise AnalysisError('cat_split is not a single character class: %s' % name)
-    walk(p)
-    return chars
+                raise AnalysisError('tokeniser character class contains %s' % n2)
+        return chars, negate, cats
+    items = list(p)
+    if len(items) == 1 and str(items[0][0]) == 'SUBPATTERN':
+        items = list(items[0][1][3])
+    if len(items) == 1 and str(items[0][0]) == 'IN':
+        chars, negate, cats = in_chars(items[0][1])
+        if negate or cats:
+            raise AnalysisError('tokeniser class is negated / uses categories')
+        return chars, 'split', set()
+    if len(items) == 1 and str(items[0][0]) == 'BRANCH':
+        alts = items[0][1][1]
+        delim = run = None
+        for alt in alts:
+            alt = list(alt)
+            if len(alt) == 1 and str(alt[0][0]) == 'IN':
+                delim = in_chars(alt[0][1])
+            elif len(alt) == 1 and str(alt[0][0]) in ('MAX_REPEAT', 'MIN_REPEAT'):
+                inner = list(alt[0][1][2])
+                if len(inner) == 1 and str(inner[0][0]) == 'IN':
+                    run = in_chars(inner[0][1])
+        if delim is not None and run is not None and not delim[1] and run[1]:
+            swallowed = delim[0] - run[0]
+            return delim[0], 'findall', swallowed
+    raise AnalysisError('tokeniser regex %r is neither a delimiter class nor delimiter|run alternation' % pattern)
 
 
 def r_delimiters(mod, rep, R='R5.1'):
@@ -56,11 +78,15 @@ def r_delimiters(mod, rep, R='R5.1'):
     if not (isinstance(cs, ast.Call) and src(cs.func) == 're.compile' and isinstance(cs.args[0], ast.Constant)):
         raise AnalysisError('%s: cat_split is not re.compile(<literal>)' % REL)
     pat = cs.args[0].value
-    cls = regex_class(pat)
-    grouped = pat.startswith('(') and pat.endswith(')')
+    cls, style, swallowed = regex_class(pat)
     w = '%s:%s <module>' % (REL, cs.lineno)
-    rep.check(grouped, R, w, 'cat_split:capturing', 'the tokeniser keeps the delimiters (capturing group, re-inserted with blanks)',
-              'cat_split does not capture its delimiters')
+    if style == 'split':
+        grouped = pat.startswith('(') and pat.endswith(')')
+        rep.check(grouped, R, w, 'cat_split:capturing', 'the tokeniser keeps the delimiters (capturing group, re-inserted with blanks)',
+                  'cat_split does not capture its delimiters')
+    else:
+        rep.check(not swallowed, R, w, 'cat_split:run-excludes-delimiters', 'the atom-run alternative excludes every delimiter, so each delimiter is a token of its own',
+                  'the atom-run alternative of the tokeniser does not exclude the delimiter(s) %s: they are glued onto the preceding atom' % sorted(swallowed))
     # what the printers emit
     emitted = set()
     a_str = mod.get('Atom.__str__')
@@ -103,9 +129,14 @@ def r_delimiters(mod, rep, R='R5.1'):
     rep.check(cls <= tested, R, '%s:%s Category.parse' % (REL, parse.lineno), 'delimiters:dispatch-covers-class',
               'the reader has a case for every delimiter the tokeniser produces', 'delimiters without a case in Category.parse: %s' % sorted(cls - tested))
     sub = [n for n in ast.walk(parse) if isinstance(n, ast.Call) and src(n.func) == 'cat_split.sub']
-    rep.check(bool(sub) and isinstance(sub[0].args[0], ast.Constant) and sub[0].args[0].value == ' \\1 ' and "split(' ')" in src(parse), R,
-              '%s:%s Category.parse' % (REL, parse.lineno), 'delimiters:tokenise', 'delimiters are padded with blanks and the text is split on blanks (blanks never matter)',
-              'tokenisation is not sub(" \\1 ") + split(" ")')
+    fa = [n for n in ast.walk(parse) if isinstance(n, ast.Call) and src(n.func) == 'cat_split.findall']
+    if style == 'split':
+        ok = bool(sub) and isinstance(sub[0].args[0], ast.Constant) and sub[0].args[0].value == ' \\1 ' and "split(' ')" in src(parse)
+    else:
+        ok = bool(fa) and len(fa[0].args) == 1 and src(fa[0].args[0]) == parse.args.args[1].arg
+    rep.check(ok, R, '%s:%s Category.parse' % (REL, parse.lineno), 'delimiters:tokenise',
+              'the text is tokenised with the delimiter regex (%s style): blanks never matter' % style,
+              'Category.parse does not tokenise its text with cat_split in the %s style' % style)
     return cls
 
 
